@@ -213,6 +213,11 @@ def run(target, stride, offset, limit, lane, variant="rel"):
         for desc, new in mutants_of_line(src[i]):
             sites.append((i, desc, new))
     chosen = sites[offset::stride]
+    if LINES:
+        chosen = [c for c in sites if LINES[0] <= c[0] + 1 <= LINES[1]]
+    if SURVIVORS and os.path.exists(os.path.join(OUT, "%s.json" % target)):
+        surv = set((r["line"], r["mutation"]) for r in json.load(open(os.path.join(OUT, "%s.json" % target)))["results"] if r["verdict"] == "survived")
+        chosen = [c for c in sites if (c[0] + 1, c[1]) in surv]
     if limit:
         chosen = chosen[:limit]
     print("%s: %d candidate mutants, running %d (stride %d offset %d) on %s" % (target, len(sites), len(chosen), stride, offset, t["config"]), flush=True)
@@ -273,6 +278,8 @@ def run(target, stride, offset, limit, lane, variant="rel"):
     summarize(outp)
 
 
+LINES = None
+SURVIVORS = False
 _HID = None
 
 
@@ -325,6 +332,10 @@ if __name__ == "__main__":
         def opt(name, default):
             return int(a[a.index(name) + 1]) if name in a else default
         lane = a[a.index("--lane") + 1] if "--lane" in a else None
+        if "--lines" in a:
+            lo, hi = a[a.index("--lines") + 1].split("-")
+            LINES = (int(lo), int(hi))
+        SURVIVORS = "--survivors" in a
         run(a[1], opt("--stride", 1), opt("--offset", 0), opt("--limit", 0), lane)
     elif a[0] == "clean":
         base = os.path.join("/tmp/mut", a[1])
